@@ -269,7 +269,7 @@ pub fn measure_build(c: &Cfg, n: u64) -> Meas {
             }
         }
         "SetBuilder" => {
-            assert!((c.rows, c.cols) == (10000, 2));
+            assert!((c.rows, c.cols) == (crate::core::drows(), crate::core::dcols()));
             let mut b = fst::SetBuilder::new(DiscardSink { n: 0 }).unwrap();
             let peak_new = mem::peak();
             for _ in 0..n {
@@ -281,7 +281,7 @@ pub fn measure_build(c: &Cfg, n: u64) -> Meas {
             Meas { peak_new, peak: mem::peak(), left: mem::current(), allocs: mem::allocs(), emitted: sink.n, ..Meas::default() }
         }
         "MapBuilder" => {
-            assert!((c.rows, c.cols) == (10000, 2));
+            assert!((c.rows, c.cols) == (crate::core::drows(), crate::core::dcols()));
             let mut b = fst::MapBuilder::new(DiscardSink { n: 0 }).unwrap();
             let peak_new = mem::peak();
             for i in 0..n {
@@ -340,7 +340,8 @@ impl Prop for P {
         let mut cases = vec![];
         // (fanout, keylen): bounded fan-out and key length, key space >> n
         let shapes: &[(u64, usize)] = &[(2, 40), (4, 16), (16, 8), (26, 10), (64, 6), (256, 8), (3, 64)];
-        let geoms: &[(usize, usize)] = &[(100, 2), (10000, 2), (0, 0), (1, 1), (64, 1), (1000, 5), (16, 16)];
+        let dflt = (crate::core::drows(), crate::core::dcols());
+        let geoms: &[(usize, usize)] = &[(100, 2), dflt, (0, 0), (1, 1), (64, 1), (1000, 5), (16, 16)];
         let ns: &[u64] = match tier {
             Tier::Quick => &[100_000, 300_000, 1_000_000],
             Tier::Thorough => &[100_000, 1_000_000, 10_000_000],
@@ -355,10 +356,10 @@ impl Prop for P {
                             if n >= 1_000_000 && !(fan == 4 || fan == 26 || (fan == 256 && tier != Tier::Quick)) {
                                 continue;
                             }
-                            if n >= 1_000_000 && !matches!((rows, cols), (100, 2) | (10000, 2) | (0, 0) | (1000, 5)) {
+                            if n >= 1_000_000 && !(matches!((rows, cols), (100, 2) | (0, 0) | (1000, 5)) || (rows, cols) == dflt) {
                                 continue;
                             }
-                            if n >= 10_000_000 && !((rows, cols) == (100, 2) || (rows, cols) == (10000, 2)) {
+                            if n >= 10_000_000 && !((rows, cols) == (100, 2) || (rows, cols) == dflt) {
                                 continue;
                             }
                             let seed = 1 + rng.below(1 << 30);
@@ -378,7 +379,7 @@ impl Prop for P {
                             continue;
                         }
                         let seed = 1 + rng.below(1 << 30);
-                        cases.push(format!("build {} {} 10000 2 {} {} {} {}", kind, fam, n, fan, kl, seed));
+                        cases.push(format!("build {} {} {} {} {} {} {} {}", kind, fam, dflt.0, dflt.1, n, fan, kl, seed));
                         stats.bump(&format!("build_n{}", n));
                         stats.bump(&format!("build_family_{}", fam));
                         stats.bump("public_front_end_cases");
@@ -407,11 +408,11 @@ impl Prop for P {
                         stats.bump(&format!("sat_family_{}", fam));
                     }
                     if hooked(kind) || fan == 4 {
-                        cases.push(format!("sat {} {} 10000 2 {} {} {} {} {}", kind, fam, d1, d2, fan, kl, seed));
+                        cases.push(format!("sat {} {} {} {} {} {} {} {} {}", kind, fam, dflt.0, dflt.1, d1, d2, fan, kl, seed));
                         stats.bump(&format!("sat_family_{}", fam));
                     }
                     if tier == Tier::Thorough && fan == 4 {
-                        cases.push(format!("sat {} {} 10000 2 1000000 10000000 {} {} {}", kind, fam, fan, kl, seed));
+                        cases.push(format!("sat {} {} {} {} 1000000 10000000 {} {} {}", kind, fam, dflt.0, dflt.1, fan, kl, seed));
                         stats.bump(&format!("sat_family_{}", fam));
                     }
                 }
@@ -566,7 +567,7 @@ impl Prop for P {
             }
         }
         let mut sample: Vec<String> =
-            logv.iter().filter(|l| l.starts_with("sat ") || (l.contains(" 10000 2 1000000 ") && l.starts_with("build "))).cloned().collect();
+            logv.iter().filter(|l| l.starts_with("sat ") || (l.contains(" 1000000 ") && l.starts_with("build "))).cloned().collect();
         sample.sort();
         sample.truncate(80);
         out.push(("measured_peaks".to_string(), true, format!("worst peak/bound = {:.3} ({}); {}", worst_ratio, worst_case, sample.join(" | "))));
